@@ -55,6 +55,27 @@ PROPS = {
             "Duration::from_secs_f64 over the reals modelled as rounding to the nearest nanosecond",
         ],
     },
+    "C11": {
+        "suites": [{"name": "mixpart", "quick": 1500, "thorough": 60000}],
+        "level_text": "Lean theorems over the reals about the imperative model of Renderer/Mixer/Track/SendTrack/MainTrack::process, "
+                      "for ALL track trees, route tables and chunk-homomorphic abstract sounds/effects with settled parameters and a static "
+                      "environment: a chunk of a+b frames renders exactly the frames of a chunk of a then a chunk of b and reaches the same "
+                      "mixer (lifted through tracks by induction on the tree, through the send pass - the routed signal is split the same way "
+                      "- and the main track); hence any two sequences of Renderer::process calls with the same total length, on renderers built "
+                      "with ANY two internal buffer sizes >= 1, produce the identical device sample stream and the same final state up to "
+                      "scratch capacity. The same definitions run as a Float twin bit-exact with kira, and the real code is rendered in three "
+                      "further (buffer size, callback partition, channel count) configurations per static case and compared frame by frame",
+        "level_note": "over the reals (per-chunk float rounding of interpolated gains is outside; with constant parameters kira's gains are "
+                      "bit-constant and the real-code oracle compares bit-equal); on_start_processing between callbacks is covered by the "
+                      "real-code oracle and the twin, not by the theorem (it is partition-neutral only for components whose "
+                      "on_start_processing does not change audio state and while no sound finishes); real sounds/effects being "
+                      "chunk-homomorphic is their own models' business (C04/C09/C13) - the probes are proved to be",
+        "assumptions": [
+            "sounds/effects are chunk-homomorphic for constant dt and Info, and do not resize the slice they are lent",
+            "all volume / route / fade parameters stagnant with previous = current value; every sub-track Playing; no spatial tracks; no clocks/modulators moving",
+            "a + b <= internal buffer size for the one-chunk statement; buffer sizes >= 1",
+        ],
+    },
     "C12": {
         "suites": [{"name": "mixtrk", "quick": 2500, "thorough": 100000}],
         "level_text": "Lean theorems about the model of Track::{process, on_start_processing, should_be_removed, read_commands}, "
